@@ -75,6 +75,8 @@ ALL = [
         '<w:r><w:t xml:space="preserve">«2»uni </w:t><w:pict><v:shape><v:textbox><w:txbxContent>' + p(r('«3»boxed ')) + '</w:txbxContent></v:textbox></v:shape></w:pict></w:r>'), r('«4» end')), docrels=LINK)),
     ('P34-markers-in-a-link-merged-with-its-neighbour', ['C12'], lambda: docx(p(r('«1»see '), link('w:anchor="bm"', '<w:commentRangeStart w:id="0"/>', '<w:commentRangeEnd w:id="0"/>', '<w:r><w:commentReference w:id="0"/></w:r>'),
         link('w:anchor="bm"', r('«2»target')), r('«3» end')), comments=COM(0))),
+    ('P35-package-absolute-targets', ['C13', 'C09'], lambda: docx(p(r('«1»body')), root_rels=[('rId1', 'officeDocument', '/word/document.xml')],
+        docrels=[('rId2', 'header', '/word/header1.xml')], extra={'word/header1.xml': f'<w:hdr {NS}>' + p(r('«2»head')) + '</w:hdr>'})),
     # constructs the line-coverage measurement (harness/tools/cover.py) showed no generated case reached
     ('cov-math-text-outside-omath', ['C13', 'C01', 'C03', 'C07'], lambda: docx(p(r('«1»a'), '<m:r><m:t>«2»x&lt;y</m:t></m:r>', r('«3»b', '<w:b/>')))),
     ('cov-two-comments-parts', ['C12', 'C13'], lambda: docx(p('<w:commentRangeStart w:id="0"/>', r('«1»a'), '<w:commentRangeEnd w:id="0"/>', r('«2»b')), comments=COM(0, 'first'),
